@@ -378,7 +378,7 @@ func (a *A) ruleGoroutines(lifecycleAdders map[string]string) {
 				case *ssa.UnOp:
 					if x.Op == token.ARROW {
 						nBlocking++
-						if !cancelLike(x.X) && !timerLike(x.X) {
+						if !cancelLike(x.X) && !timerLike(x.X) && !a.closedOnGoroutineExit(x.X) {
 							problems = append(problems, fmt.Sprintf("a bare blocking receive from %s at %s (no select with a cancel/timeout/default arm)", TermOf(x.X, nil), a.pos(x.Pos())))
 						}
 					}
@@ -812,4 +812,44 @@ func (a *A) ruleRegisteredGoroutinesSpawned() int {
 		a.Und("lifecycle-registered-spawns", start.Pos(), "no conditional lifecycle.Add / later spawn pair found (adds=%d spawners=%d)", len(adds), len(spawners))
 	}
 	return n
+}
+
+
+// closedOnGoroutineExit: ch is a struct field that some goroutine of the module closes in a deferred statement
+// (`defer close(wm.loopDone)` at the top of the goroutine's function): a receive from it is a join on that
+// goroutine, released when the goroutine returns - and the goroutine's own loop is judged by this rule
+// (cancellable) where it is started. The wait is as bounded as the goroutine it waits for.
+func (a *A) closedOnGoroutineExit(ch ssa.Value) bool {
+	f := chanField(ch)
+	if f == nil {
+		return false
+	}
+	started := map[*ssa.Function]bool{}
+	for _, fn := range a.ModFuncs {
+		allInstrs(fn, func(in ssa.Instruction) {
+			if g, ok := in.(*ssa.Go); ok {
+				if cal := g.Call.StaticCallee(); cal != nil {
+					started[cal] = true
+				}
+				if mc, ok := g.Call.Value.(*ssa.MakeClosure); ok {
+					if lit, ok := mc.Fn.(*ssa.Function); ok {
+						started[lit] = true
+					}
+				}
+			}
+		})
+	}
+	found := false
+	for fn := range started {
+		allInstrs(fn, func(in ssa.Instruction) {
+			d, ok := in.(*ssa.Defer)
+			if !ok {
+				return
+			}
+			if b, isB := d.Call.Value.(*ssa.Builtin); isB && b.Name() == "close" && len(d.Call.Args) == 1 && chanField(d.Call.Args[0]) == f {
+				found = true
+			}
+		})
+	}
+	return found
 }
